@@ -216,6 +216,133 @@ def make(cfg):
     return Monitor(cfg)
 
 
+class TimeoutScenario:
+    """One gateway under one version: a few received lines whose reactions are transport writes the explorer completes,
+    and a wait for the next message that may time out (is cancelled) while a write is in flight."""
+
+    horizon = 3000
+
+    def __init__(self, cfg: dict, loop) -> None:
+        import asyncio
+
+        from aiomysensors.gateway import Gateway
+
+        from ..harness import AsyncScriptTransport, drive
+
+        self.asyncio = asyncio
+        self.cfg = cfg
+        self.loop = loop
+        t = self.t = AsyncScriptTransport(loop)
+        gw = self.gw = Gateway(t)
+        gw.protocol_version = cfg["version"]
+        agen = gw.listen()
+        for line in ("1;255;0;0;17;2.0", "1;3;0;0;3;", "1;3;1;0;2;v"):
+            t.lines.append(line)
+            drive(agen.__anext__())
+        self.base = len(t.log)
+        t.sync = False
+        self.script = list(cfg["lines"])
+        self.pos = 0
+        self.budget = 1
+        self.timed_out = False
+        self.step_task = None
+        self.results: list = []
+        self.nontrivial = False
+        self.listener = loop.create_task(self._listen())
+
+    async def _listen(self):
+        from aiomysensors.exceptions import AIOMySensorsError
+
+        agen = self.gw.listen()
+        try:
+            for _ in self.script:
+                self.step_task = self.loop.create_task(agen.__anext__())
+                try:
+                    m = await self.step_task
+                    self.results.append(("yield", m.node_id, m.message_type))
+                except AIOMySensorsError as exc:
+                    self.results.append(("raise", type(exc).__name__))
+                    await agen.aclose()
+                    agen = self.gw.listen()
+                except self.asyncio.CancelledError:
+                    if not self.timed_out:
+                        raise
+                    self.timed_out = False
+                    self.results.append(("timeout",))
+                    await agen.aclose()
+                    agen = self.gw.listen()
+        finally:
+            self.step_task = None
+            await agen.aclose()
+
+    def enabled(self) -> list:
+        self.t.pending_writes[:] = [e for e in self.t.pending_writes if not e[0].done()]
+        evs = []
+        if self.pos < len(self.script) and self.t.pending_read is not None:
+            evs.append("line")
+        for i in range(len(self.t.pending_writes)):
+            evs.append(f"write:{i}")
+        if self.budget > 0 and self.t.pending_writes and self.step_task is not None and not self.step_task.done():
+            evs.append("timeout")
+        return evs
+
+    def fire(self, label: str) -> None:
+        if label == "line":
+            self.t.deliver(self.script[self.pos])
+            self.pos += 1
+        elif label == "timeout":
+            self.budget -= 1
+            self.nontrivial = True
+            self.timed_out = True
+            self.step_task.cancel()
+        else:
+            self.t.complete_write(int(label.split(":")[1]))
+
+    def finished(self) -> bool:
+        return self.pos >= len(self.script) and self.listener.done() and self.loop.ready_count() == 0
+
+    def verdict(self, hang: bool) -> list:
+        return [("C19|timeout-hang", f"{self.cfg}: no enabled event while the listener is unfinished", None)] if hang else []
+
+    def observation(self):
+        return {"results": [list(r) for r in self.results], "issued": list(self.t.log[self.base:]), "written": self.t.written()[self.base:] if False else [l for l in self.t.written()],
+                "registry": registry_view(self.gw.nodes)}
+
+
+def make_scenario(cfg, loop):
+    return TimeoutScenario(cfg, loop)
+
+
+def timeout_diff_job(job):
+    """The same scenario, schedule by schedule, under the older and the newer version of a pair: every schedule (which
+    write completes when, where the timeout lands) must produce the same results, writes and registry."""
+    from .. import explore
+
+    pair, lines = job
+    outcomes = []
+    for v in pair:
+        cfg = {"version": v, "lines": lines}
+        seen = {}
+        stack = [[]]
+        while stack:
+            p = stack.pop()
+            x = explore.run_once(MOD, cfg, p)
+            seen[tuple(x.trace)] = x.obs
+            stack.extend(explore.children(x, len(p), 1))
+        outcomes.append(seen)
+    viols = []
+    a, b = outcomes
+    for trace in sorted(set(a) | set(b)):
+        if trace not in a or trace not in b:
+            viols.append((f"C19|timeout-schedules-differ|{pair[0]}-{pair[1]}", f"lines {lines}: the schedule {list(trace)} exists under {pair[0] if trace in a else pair[1]} only (the other version issues other writes)", {"timeout_diff": [pair, lines]}))
+            break
+        if a[trace] != b[trace]:
+            d = next(k for k in a[trace] if a[trace][k] != b[trace][k])
+            viols.append((f"C19|timeout-{d}-differ|{pair[0]}-{pair[1]}", f"lines {lines}, schedule {list(trace)} (the wait for the next message times out while a write is in flight): {d} under {pair[0]}: {a[trace][d]}; under {pair[1]}: {b[trace][d]}", {"timeout_diff": [pair, lines]}))
+            break
+    return len(a) + len(b), viols
+
+
 def prefixes(pair, cross) -> list:
     n1 = ["line", [1, 255, 0, 0, 17, "2.0"]]
     c3 = ["line", [1, 3, 0, 0, 6, "d"]]
@@ -281,8 +408,10 @@ def run(ctx: core.Ctx) -> core.Report:
         cts = list(range(0, R.S_MAX[p[0]] + 1))
         for i in range(0, len(cts), 5):
             tjobs.append((p, cts[i : i + 5]))
+    djobs = [(p, ls) for p in SAME_MAJOR + CROSS_MAJOR for ls in (["255;255;3;0;3;", "255;7;3;0;3;"], ["1;255;3;0;6;", "1;3;2;0;2;", "255;255;3;0;3;"])]
+    dres = core.pmap(timeout_diff_job, djobs, ctx.workers, chunksize=1)
     tres = core.pmap(type_product_job, tjobs, ctx.workers, chunksize=1)
-    tviols = [core.Violation(k, w, rep) for r in tres for k, w, rep in r[1]]
+    tviols = [core.Violation(k, w, rep) for r in tres + dres for k, w, rep in r[1]]
     tcount = sum(r[0] for r in tres)
     cov = {
         "states": res["states"] + sres["states"],
@@ -291,7 +420,7 @@ def run(ctx: core.Ctx) -> core.Report:
         "type_product_cases": tcount,
         "exhaustive": False,
         "distinct_nontrivial_transitions": res["nontrivial_transitions"] + sres["nontrivial_transitions"],
-        "rule": "product of two real gateways (old, new) fed the same events; (a) every internal/stream type of the old table x payloads in base states (depth 1; the heartbeat response across 2.1->2.2 is compared with the sleeping flag and the release of parked commands masked), (b) all histories to the stated depth, incl. histories with heartbeat responses across the 2.2 boundary (sleeping flag masked, no buffered sends) and histories starting from a node restored as sleeping, (c) every child type x value type of the older table (present, set, req, send); non-trivial = the step wrote something or raised",
+        "rule": "product of two real gateways (old, new) fed the same events; (a) every internal/stream type of the old table x payloads in base states (depth 1; the heartbeat response across 2.1->2.2 is compared with the sleeping flag and the release of parked commands masked), (b) all histories to the stated depth, incl. histories with heartbeat responses across the 2.2 boundary (sleeping flag masked, no buffered sends) and histories starting from a node restored as sleeping, (b'') two scenarios per pair explored schedule by schedule (E2: suspended writes, one timeout of the wait for the next message) under both versions and compared per schedule, (c) every child type x value type of the older table (present, set, req, send); non-trivial = the step wrote something or raised",
         "bounds": {"depth": depth, "pairs": SAME_MAJOR + CROSS_MAJOR, "single_step_cfgs": len(cfgs_s), "per_cfg": res["per_cfg"]},
         "samples": ctx.pick(res["samples"], 3),
     }
@@ -309,4 +438,7 @@ def run(ctx: core.Ctx) -> core.Report:
 
 
 def replay(data: dict) -> dict:
+    if "timeout_diff" in data:
+        _, v = timeout_diff_job((data["timeout_diff"][0], data["timeout_diff"][1]))
+        return {"violated": bool(v), "violations": [{"key": k, "what": w} for k, w, _ in v]}
     return bfs.replay_history(MOD, data)
